@@ -20,6 +20,7 @@ CONSTANTS C, MaxParts, Amts, Tots, Secs, Cls,
           RegMin,      \* min_final_cltv_expiry_delta given at registration (0: none)
           BUF, MPPT,   \* HTLC_FAIL_BACK_BUFFER, MPP_TIMEOUT_TICKS
           MaxTicks, MaxBlocks, MaxDev, MaxOps,
+          EmitMod,     \* print the behaviour of every EmitMod-th quiescent state only (1: all)
           StaleClaim   \* TRUE: the user may answer a PaymentClaimable whose HTLCs were failed back meanwhile
                        \* while a new, incomplete set of the same hash is held (KNOWN finding, see c04.py)
 
@@ -190,5 +191,6 @@ MCSpec == MCInit /\ [][MCNext]_mvars
 Bound == nops <= MaxOps
 View == <<rvars, dvars, obs, quiet, nops>>
 
-EmitScripts == (quiet /\ Idle /\ Len(hist) > 2 /\ (answered \/ nblk > 0 \/ ntick > 0)) => PrintT(<<"SCRIPT", ToJson([c |-> C, regamt |-> RegAmt, regmin |-> RegMin, ops |-> hist])>>)
+Pick == (SumP(DOMAIN part) * 7 + h + ntick * 3 + nblk * 5 + np + got) % EmitMod = 0
+EmitScripts == (quiet /\ Idle /\ Len(hist) > 2 /\ (answered \/ nblk > 0 \/ ntick > 0) /\ Pick) => PrintT(<<"SCRIPT", ToJson([c |-> C, regamt |-> RegAmt, regmin |-> RegMin, ops |-> hist])>>)
 =============================================================================
